@@ -26,10 +26,11 @@ Theorems (Property.v; all closed under the global context):
   C19_roundtrip_identity DevInv h -> rt_domain h -> ir >= 11 -> ser_ok h -> roundtrip h = (h, Ok tt)
   C19_resolve_through_scopes  a successful lookup returns the value declared under that name in the innermost
                          enclosing scope declaring it (captured values found in enclosing scopes, locals shadow)
-  C19_roundtrip_old_ir   ir < 11: configurations and the annotations of main-graph / function nodes are dropped
-  C19_old_ir_nested_dangles  (observation, outside the quantifier) ir < 11: nodes inside subgraph bodies keep
-                         their annotations (the IR gate is not passed down to serialize_graph_into for graph
-                         attributes) while the configurations are dropped: dangling reference, check kind 3
+  C19_roundtrip_old_ir   ir < 11: every annotation (at every nesting depth) and configuration is dropped, DevInv
+                         kept.  (History: the first nested model reproduced "nodes inside bodies keep their
+                         annotations below IR 11" — the gate was not passed down to serialize_graph_into for graph
+                         attributes; repaired in /repo by 5e4600e, model and theorem changed in the same step;
+                         the probe below now expects nothing to survive.)
   C19_noncascade_breaks  (documented behaviour, not a finding) remove without cascade leaves a dangling ref
 Reading of the English (weaker reading where ambiguous):
   * "registered on its model": the node configuration's ModelConfiguration object `is` an element of
@@ -1035,10 +1036,6 @@ def run_history(init: dict, ops, strict: bool, gen: Gen | None = None, nops: int
             break
         cb = {k: v for k, v in canon_before.items() if k not in ("res", "why")}
         ca = {k: v for k, v in ob.items() if k not in ("res", "why")}
-        if o["op"] == "roundtrip" and res == "ok" and w.model.ir_version < 11:
-            # the property speaks of round trips at IR >= 11; below, nodes inside subgraph bodies keep annotations
-            # whose configurations were dropped (observation, see module docstring): configuration/device clauses off
-            strict = False
         bad = oracle_step(w, o, res, before, cb, ca, strict, invalid) + oracle_state(w, strict)
         if bad:
             failures.append((i, bad))
@@ -1171,7 +1168,7 @@ def probes(ck) -> None:
     x.shape = ir.Shape([2])
     obs["shape of a sharded value edited afterwards (rank 2 -> 1); check reports"] = \
         [classify(s)[0] for s in md._check_device_configurations(m)]
-    # below IR 11: the gate is not applied inside subgraph bodies
+    # below IR 11: the gate applies at every nesting depth (since 5e4600e)
     x = ir.Value(name="x", shape=ir.Shape([2, 3]), type=ir.TensorType(ir.DataType.FLOAT))
     inner = ir.Node("", "Relu", [x], name="n1")
     inner.outputs[0].name = "y"
